@@ -39,7 +39,7 @@ def inputs(ctx):
             # captions whose own nodes begin or end with a line break: the separator is added all the same
             ins.append({"id": "gm3-%d" % k, "kind": "merge", "langs": [keys], "breaks": "edge"})
             ins.append({"id": "gm4-%d" % k, "kind": "merge", "langs": [keys], "breaks": "edge2"})
-    for k in range(400 if ctx.quick else 20000):
+    for k in range(400 if ctx.quick else 80000):
         langs = []
         for _ in range(rng.randrange(1, 4)):
             n = rng.randrange(0, 31)
@@ -58,7 +58,7 @@ def inputs(ctx):
                 ins.append({"id": "ga%d" % g, "kind": "adjust", "p": p, "q": q, "off": off,
                             "langs": [[(s, s + 700_000) for s in starts]]})
                 g += 1
-    for k in range(400 if ctx.quick else 20000):
+    for k in range(400 if ctx.quick else 80000):
         dy = rng.random() < 0.5
         if dy:
             q = rng.choice([1, 2, 4, 8, 16])
